@@ -76,7 +76,7 @@ impl Scenario for Stacks {
         "per case one subject and one byte string (valid, valid+suffix, damaged, truncated, random) decoded through the plain slice (baseline) and 8..50 further source stacks: IoReader<Cursor>, IoReader<SimRead> under several chunk/EINTR schedules (incl. 1 byte per call), SimInput with remaining_len Some/None x read_byte own/defaulted, decode_from_bytes (BytesCursor incl. zero-copy Bytes path), and CountedInput / depth-limit(max) / mem-limit(max) wrappers in every order up to depth 3 (all 40 stacks for inputs <= 64 bytes, sampled otherwise) over a drawn base; every sub-run is one evaluation unit of the signature count; non-trivial = a benign fault fired or more than one seam call or input longer than one byte"
     }
     fn cases(&self, tier: Tier) -> u64 {
-        tiered(tier, 100_000, 10_000_000)
+        tiered(tier, 400_000, 12_000_000)
     }
     fn gen(&self, seed: u64, idx: u64, _tier: Tier) -> Plan {
         let mut rng = Rng::for_case(seed, "stacks", idx);
@@ -263,7 +263,7 @@ impl Scenario for Count {
         "per case one subject, one byte string (valid / damaged / truncated / random) and one source: base (slice, IoReader<Cursor>, IoReader<SimRead>, SimInput) with 0..2 error faults (read error at call k with or without partial consumption, EOF at byte k, I/O error at call k), a recording tap, then a wrapper stack containing at least one CountedInput (position 0..2 among depth/mem layers); oracle after success AND after failure: every CountedInput::count() == bytes delivered by successful read/read_byte calls of the wrapped input as recorded by the tap; after success also == bytes taken from the base; non-trivial = an error fault fired or more than one seam call"
     }
     fn cases(&self, tier: Tier) -> u64 {
-        tiered(tier, 600_000, 60_000_000)
+        tiered(tier, 3_000_000, 100_000_000)
     }
     fn gen(&self, seed: u64, idx: u64, _tier: Tier) -> Plan {
         let mut rng = Rng::for_case(seed, "count", idx);
